@@ -183,9 +183,8 @@ func GenErrForm(r *rand.Rand) ErrForm {
 	if f.Prefix != "" && strings.Contains(f.Open, `xmlns='`) {
 		f.Open = strings.ReplaceAll(f.Open, `xmlns='`, "xmlns:"+f.Prefix+`='`)
 	}
-	if r.Intn(10) == 0 {
-		f.CloseWS = []string{" ", "\n"}[r.Intn(2)]
-	}
+	// white space in END tags (known finding c02/failed-unset:no-literal-marker:closing-tag-whitespace) is
+	// explored by the enumerated witness list (runErrForms) only
 	return f
 }
 
